@@ -455,8 +455,8 @@ func c08noBypass(c *Ctx, pkg string) {
 
 // c08inheritOnly (R12, round 6): a value is looked up in an ancestor only for a member that says so. The ancestor
 // search is recursiveValuer.Value; the unmarshaller hands a recursiveValuer to a member's lookup in exactly one place,
-// createValuer on the branch where the member's options say `inherit`, and getValueWithChainedKeys uses one to walk a
-// dotted key inside the document (each step's parent is the previous step). Any other function wrapping a map in a
+// createValuer on the branch where the member's options say `inherit`. The walk along a dotted key is not such a place
+// (round 7, F42: each remaining part is looked up in the object the previous part named, and there only). Any function wrapping a map in a
 // recursiveValuer (a slice element filled "with its parent", say) makes every absent member of that subtree — optional,
 // defaulted or required — silently take a same-named value from an enclosing object.
 func c08inheritOnly(c *Ctx, pkg string) {
@@ -482,8 +482,13 @@ func c08inheritOnly(c *Ctx, pkg string) {
 				}
 				name := root.RelString(root.Pkg.Pkg)
 				switch name {
-				case "getValueWithChainedKeys", "simpleValuer.Parent", "recursiveValuer.Parent", "(simpleValuer).Parent", "(recursiveValuer).Parent":
+				case "simpleValuer.Parent", "recursiveValuer.Parent", "(simpleValuer).Parent", "(recursiveValuer).Parent":
 					continue
+				case "getValueWithChainedKeys":
+					// (round 7) the walk along a dotted key looks each remaining part up in the object the previous part
+					// named — in that object only: with the ancestor search a required `a.b` that is absent is "found" as a
+					// same-named key of an enclosing object
+					bad = append(bad, fmt.Sprintf("%s: the dotted-key walk wraps a step in recursiveValuer: a member `a.b` that was not supplied is satisfied by a key `b` of an enclosing object", at))
 				case "createValuer":
 					// the construction lies on the true outcome of opts.inherit()
 					ok := false
@@ -515,8 +520,8 @@ func c08inheritOnly(c *Ctx, pkg string) {
 		}
 	}
 	sort.Strings(bad)
-	c.R.Check(len(bad) == 0 && gated, rule, pkg+"#ancestor-lookup", "the ancestor-searching valuer is built only by createValuer under opts.inherit(), by the dotted-key walk and by the valuers' own Parent methods", "-", fmt.Sprintf("%d constructions; inherit-gated construction found=%v; %s", n, gated, strings.Join(bad, "; ")), bad, n)
-	if n < 4 {
+	c.R.Check(len(bad) == 0 && gated, rule, pkg+"#ancestor-lookup", "the ancestor-searching valuer is built only by createValuer under opts.inherit() and by the valuers' own Parent methods (not by the dotted-key walk)", "-", fmt.Sprintf("%d constructions; inherit-gated construction found=%v; %s", n, gated, strings.Join(bad, "; ")), bad, n)
+	if n < 3 {
 		c.R.Undecided(rule, pkg+"#ancestor-sites", "the constructions of recursiveValuer are recognised", fmt.Sprintf("%d found", n))
 	}
 }
